@@ -29,14 +29,16 @@ LEVEL_NOTE = ("Trusted: Lean kernel (axioms propext, Classical.choice, Quot.soun
               "beyond the explored sizes (the loops are uniform in k); qiskit matrices of u, cx, ccx, C3X, C4X, mcx(noancilla) "
               "(validated numerically each run); float pi/4 vs the exact angle.  action_only=True is modelled and tied but is "
               "outside the property (it leaves the ancillas dirty on purpose).")
-LEAN_TARGETS = ["QclibModel.Props.C05", "QclibModel.Props.C05Majority"]
+LEAN_TARGETS = ["QclibModel.Props.C05", "QclibModel.Props.C05Majority", "QclibModel.Props.C05Invol"]
 THEOREMS = ["Qclib.C05_toffoli_relphase", "Qclib.C05_halves", "Qclib.C05_vchain", "Qclib.C05_vchain_relphase",
             "Qclib.C05_linear", "Qclib.C05_ctrl_state", "Qclib.C05_majority", "Qclib.C05_majority_sizes",
             "Qclib.C05_majority_src",
     "Qclib.C05_vchain_action_only",
     "Qclib.C05_action_only_bracket",
     "Qclib.C05_sp_comm",
-    "Qclib.C05_linear_action_only"]
+    "Qclib.C05_linear_action_only",
+    "Qclib.C05_vchain_involution",
+    "Qclib.C05_linear_involution"]
 TRUSTED = [
     "qiskit UGate(theta,0,0), CXGate, CCXGate, C3XGate, C4XGate matrices and the mcx(mode='noancilla') dispatch equal "
     "matU / applyMcu of Sem/Denote.lean (validated numerically each run)",
